@@ -82,6 +82,17 @@ def streams(ab: int, maxcmds: int, rng: random.Random, cap: int) -> List[List[in
                 for rw in range(4):
                     for rh in range(4):
                         out.append(init + [4] + u16(x) + u16(y) + u16(rw) + u16(rh) + list((dw * ((x + y) % 3)).to_bytes(ab, "little")))
+    # the program changes its memory between two commands that read the same place (item 1000 + 256*k + v: the packed byte
+    # of op k becomes v): the device must read memory when the command arrives, not remember what it read before
+    poke = lambda k, v: 1000 + 256 * k + v  # noqa: E731
+    init22 = [1] + u16(2) + u16(2) + [8] + u16(2)
+    addr_ = lambda k: list((k * dw).to_bytes(ab, "little"))  # noqa: E731
+    for a_ in (0, 5, 12):
+        for k_ in (a_, a_ + 1, a_ + 5):
+            out.append(init22 + [2] + addr_(a_) + [poke(k_, 0x77)] + [2] + addr_(a_))                      # palette twice
+            out.append(init22 + [3] + addr_(a_) + [poke(k_, 0x3C)] + [3] + addr_(a_))                      # full update twice
+            out.append(init22 + [2] + addr_(a_) + [3] + addr_(1) + [poke(k_, 0x99)] + [2] + addr_(a_) + [3] + addr_(1))
+        out.append(init22 + [4] + u16(0) + u16(0) + u16(2) + u16(1) + addr_(a_) + [poke(a_ + 1, 0xEE)] + [4] + u16(0) + u16(0) + u16(2) + u16(1) + addr_(a_))
     uniq = sorted({tuple(s) for s in out})
     return [list(s) for s in uniq]
 
@@ -145,8 +156,12 @@ def _screen_replay(args):
             break
         exc = None
         try:
-            for bit in range(8):
-                scr.write_bit(bool((byte >> bit) & 1))
+            if byte >= 1000:            # not a byte for the device: the program memory changes
+                k_, v_ = (byte - 1000) // 256, (byte - 1000) % 256
+                mem.d[2 * k_ + 1] = (v_ << w.bit_length()) | (k_ & 1)
+            else:
+                for bit in range(8):
+                    scr.write_bit(bool((byte >> bit) & 1))
         except IODeviceException:
             errored = True
         except Exception as e:  # noqa: BLE001
@@ -283,7 +298,7 @@ def run_e2e(chk: Check, quick: bool, rng: random.Random, so: str, pool):
     per_w = 10 if quick else 120
     jobs = []
     for ab in (2, 4, 8):
-        cand = [(s_, sts) for a, s_, sts in pool if a == ab and len(s_) <= 40]
+        cand = [(s_, sts) for a, s_, sts in pool if a == ab and len(s_) <= 40 and all(x < 256 for x in s_)]
         # prefer streams that present a frame from program memory; keep some that end in a device error
         good = [c for c in cand if max(c[1], key=lambda st: st["fed"])["frames"] > 0]
         errs = [c for c in cand if max(c[1], key=lambda st: st["fed"])["err"]]
